@@ -388,3 +388,46 @@ Theorem fast_deep_history_multi_target_default_repaired :
   legal_configb c cf = true /\ cf = cl /\ cf = [0; 1; 3; 4; 5; 6; 8; 10; 12]%nat.
 Proof. exact fast_deep_history_default_repaired. Qed.
 Print Assumptions fast_deep_history_multi_target_default_repaired.
+
+(* ===================== work package `val`: the hypothesis "validates without fatal issues" ===================== *)
+From V Require Import Validate ValidateBridge ValidateBridgeRun.
+
+(* WHAT: C02 with its hypothesis as the property states it -- "any document that validates without fatal issues".
+   For every document tree t (<initial>, deep/multiple initial attributes, shallow/deep histories allowed) for whose
+   rendering gdoc_of_tree t (ValidateBridge.v: the SCXML text tools/chartgen.py writes, as the validator model reads
+   it) the repaired validator model reports no FATAL issue: after initialisation and after every microstep of every run
+   (all event histories, datamodel variants, numbers of steps, early/late binding) of the large-step AND of the fast
+   engine model the configuration is legal.
+   SIDE CONDITIONS (vb_docb: the root is the only <scxml>; vb_hidden_freshb: a numbering condition of the tree type;
+   vb_sideb: the root has a child state, no history below <parallel>, default transitions of histories and
+   transitions of <initial> name proper states, no state below the parent of a deep history owns a history).  None
+   follows from validation; see Properties_C19.v for the witness of each (C02-K1 is accepted by the validator:
+   validated_documents_need_disjoint_histories_refuted below).
+   NOT COVERED: the generated C; documents outside the side conditions. *)
+Theorem run_always_legal_validated_document : forall t l,
+  vb_docb t = true -> vb_hidden_freshb t = true ->
+  validate vv_fixed (gdoc_of_tree t) = Ok l -> no_fatal l = true -> vb_sideb t = true ->
+  forall late xv fuel evs,
+    let c := flatten late t in
+    CfgOK c (fst (run_loop c lstate (large_step lg_fixed xv c) l_cfg fuel l_pristine x_init evs)) /\
+    CfgOK c (fst (run_loop c lstate (fast_step xv c) l_cfg fuel l_pristine x_init evs)).
+Proof.
+  intros t l Hd Hf Hv Hn Hs late xv fuel evs c. assert (V : validated t) by (now exists l).
+  split; [now apply validated_run_legal_lemma | now apply validated_run_legal_fast_lemma].
+Qed.
+Print Assumptions run_always_legal_validated_document.
+
+(* the tables of such a document are inside the reach of run_always_legal_history / _fast *)
+Theorem validated_documents_are_covered : forall t l,
+  vb_docb t = true -> vb_hidden_freshb t = true ->
+  validate vv_fixed (gdoc_of_tree t) = Ok l -> no_fatal l = true -> vb_sideb t = true ->
+  forall late, wf_histb (flatten late t) = true /\ fs_type (st (flatten late t) 0) = FCompound.
+Proof. intros t l Hd Hf Hv Hn. apply validated_wf_hist_lemma; [exact Hd | exact Hf | now exists l]. Qed.
+Print Assumptions validated_documents_are_covered.
+
+(* the property as stated (every validated document) is refuted for both engine models: the C02-K1 document validates
+   without fatal issue, meets every side condition but vb_hist_disjointb, and reaches an illegal configuration *)
+Theorem validated_documents_need_disjoint_histories_refuted :
+  breaks kho_tree [true; true; true; true; true; true; false] [[101%N]].
+Proof. exact hist_disjoint_needed_refuted. Qed.
+Print Assumptions validated_documents_need_disjoint_histories_refuted.
